@@ -14,6 +14,7 @@ import PnaVerif.Model.Cli.ModeText
 import PnaVerif.Model.Cli.Wire
 import PnaVerif.Model.Cli.ChunkList
 import PnaVerif.Model.Cli.Concat
+import PnaVerif.Model.Append
 /-
   Line-protocol driver: one request per line on stdin, one canonical answer per line on stdout.
   Imports model files only (no Mathlib) so that it links as a native executable.
@@ -358,6 +359,22 @@ def handle (line : String) : String :=
       | .error _ => "err"
       | .panic s => "panic " ++ s
     | none => "bad-op"
+  | ["append.bytes", h, raw] =>
+    -- the chunks of the appended entry arrive serialised; they are well-formed (written by the library)
+    let rec chunksOf (fuel : Nat) (b : Bytes) (acc : List Chunk) : Option (List Chunk) :=
+      match fuel with
+      | 0 => none
+      | fuel + 1 =>
+        if b.isEmpty then some acc.reverse else
+          match decodeStream b with
+          | .ok (c, r) => chunksOf fuel r (c :: acc)
+          | _ => none
+    match ofHex h, ofHex raw with
+    | some bs, some rb =>
+      match chunksOf (rb.length + 1) rb [] with
+      | some cs => outcomeS Canon.digest (appendBytes bs cs)
+      | none => "bad-op"
+    | _, _ => "bad-op"
   | ["chunklist", h] => withHex h fun b =>
       match Cli.chunkList b with
       | .ok rows => "ok " ++ ",".intercalate (rows.map fun r => s!"{r.idx}:{tyHex r.ty}:{r.len}:{String.ofList (Cli.hexOffset r.off)}")
